@@ -217,6 +217,8 @@ class Run:
     # ------------------------------------------------------------ bookkeeping
     def case(self, proj, key, nontrivial=True, sample=None):
         self.evaluations += 1
+        self.heartbeat = time.time()
+        self.last_case = (proj, str(key)[:300])
         d = self.proj.setdefault(proj, {"cases": 0, "disagreements": 0})
         d["cases"] += 1
         if nontrivial:
@@ -405,3 +407,45 @@ def environment_projection(run):
     if names != ["USE_MULTIPROCESSING"]:
         run.disagree("P-env", {"environment variables read": names}, ["USE_MULTIPROCESSING"], names,
                      ["(every theorem: the model's behaviour depends on no other configuration; Config.v mode_of_env)"])
+
+
+def start_stall_watchdog(run, main_thread_id):
+    """Last line of defence against an implementation call that never returns in a place where no per-call watchdog stands:
+    when the check has recorded no case for a long time (10 min in the quick tier, 40 min in the thorough tier; the clock starts
+    after the proofs are built), the call the main thread is in is reported as a violation of "every call returns" - with the
+    call and its history taken from the stack - and the check leaves."""
+    import sys
+    import threading
+    limit = int(os.environ.get("VERIF_STALL_LIMIT", 600 if run.tier == "quick" else 2400))
+
+    def watch():
+        while True:
+            time.sleep(5)
+            hb = getattr(run, "heartbeat", None)
+            if hb is None or time.time() - hb < limit:
+                continue
+            fr = sys._current_frames().get(main_thread_id)
+            stack, ctx = [], {}
+            while fr is not None:
+                stack.append("%s:%d %s" % (fr.f_code.co_filename, fr.f_lineno, fr.f_code.co_name))
+                for name in ("c", "call", "h", "history", "setup", "calls", "meth", "v", "kind", "size", "pid"):
+                    if name in fr.f_locals and name not in ctx:
+                        try:
+                            ctx[name] = json.loads(json.dumps(fr.f_locals[name], default=str))
+                        except Exception:  # noqa: BLE001
+                            pass
+                fr = fr.f_back
+            inside = [x for x in stack if "/hashstore/" in x]
+            if not inside:
+                run.heartbeat = time.time()          # the harness itself is busy (a long model evaluation): not the implementation
+                continue
+            os.makedirs(os.path.join(VERIF, "replays", run.prop), exist_ok=True)
+            path = os.path.join("replays", run.prop, "stall-%d.json" % int(run.seed))
+            json.dump({"property": run.prop, "kind": "violation", "violations": [{"what": "an API call does not return (no progress for %d s)" % limit,
+                       "replay": {"last_case_recorded": getattr(run, "last_case", None), "arguments_on_the_stack": ctx, "implementation_frames": inside[:12], "stack": stack[:40]}}]},
+                      open(os.path.join(VERIF, path), "w"), indent=1, default=str)
+            print("VIOLATION property=%s replay=%s" % (run.prop, path))
+            print("  what: an API call does not return; it is in %s (arguments on the stack: %s)" % (inside[0], json.dumps(ctx, default=str)[:400]))
+            sys.stdout.flush()
+            os._exit(1)
+    threading.Thread(target=watch, daemon=True).start()
